@@ -79,6 +79,12 @@ def gen_case(st, i, tier="quick", op=None):
             cx = rng.choice([0.5, 1.0, 2.0, 3.0, 0.1, 0.3, 0.7])
             cy = rng.choice([0.5, 1.0, 2.0, 3.0, 0.1, 0.3, 0.7])
             x0, y0 = rng.choice([0.0, 100.0, -7.5]), rng.choice([0.0, 50.0, -3.0])
+        exact = (not lonlat) and rng.random() < 0.25
+        if exact:
+            # "exactly at the halo": decimal cell sizes from a 0.05 grid and max_distance = k cells typed
+            # as a decimal, so that max_distance/cellsize lands a rounding error below or above k
+            cx = round(rng.randint(1, 60) * 0.05, 10)
+            cy = cx if rng.random() < 0.5 else round(rng.randint(1, 60) * 0.05, 10)
         x = x0 + cx * np.arange(W)
         y = y0 + cy * np.arange(H)
         if rng.random() < 0.5:
@@ -109,6 +115,9 @@ def gen_case(st, i, tier="quick", op=None):
             # the decimal a user would type (0.7, not 7*0.1 = 0.7000000000000001): max_distance/cellsize
             # then falls just below or above an integer number of cells
             md = round(mult * unit, 10) if rng.random() < 0.7 else mult * unit
+            if exact:
+                kk = rng.choice([1, 2, 3, 4, 5, 6, 7, 8, 9])
+                md = round(kk * rng.choice([cx, cy]), 10)
             if lonlat and rng.random() < 0.7:
                 md = mult * unit * 111000.0 * rng.choice([1, 1, 30])
             params["max_distance"] = float(md)
